@@ -451,6 +451,46 @@ fn conv_fq2_from_slice() {
     cover!(!strict, "coordinate >= q");
 }
 
+// U512::new(c1, c0, m) = c1*m + c0 (used by the dev-profile self-check of divrem): no overflow / debug assertion
+// for any c1 < 2^256, c0 < m, and the value equals an independent schoolbook product by the constant modulus
+fn u512_new_q() {
+    let c1 = any4();
+    let c0 = any_below(&Q);
+    let got = u512_limbs(&U512::new(&U256::from(c1), &U256::from(c0), &U256::from(Q)));
+    // reference: acc = c0 + sum_i sum_j c1[i]*Q[j]*W^(i+j), column by column with a 192-bit accumulator
+    let mut want = [0u64; 8];
+    let mut acc_lo: u128 = 0; // low 128 bits of the running column sum
+    let mut acc_hi: u128 = 0; // overflow beyond 128 bits
+    let mut k = 0;
+    while k < 8 {
+        if k < 4 {
+            let (s, o) = acc_lo.overflowing_add(c0[k] as u128);
+            acc_lo = s;
+            acc_hi += o as u128;
+        }
+        let mut i = 0;
+        while i < 4 {
+            if k >= i && k - i < 4 {
+                let p = (c1[i] as u128) * (Q[k - i] as u128);
+                let (s, o) = acc_lo.overflowing_add(p);
+                acc_lo = s;
+                acc_hi += o as u128;
+            }
+            i += 1;
+        }
+        want[k] = acc_lo as u64;
+        acc_lo = (acc_lo >> 64) | (acc_hi << 64);
+        acc_hi = 0;
+        k += 1;
+    }
+    let mut i = 0;
+    while i < 8 {
+        assert!(got[i] == want[i], "U512::new = c1 * m + c0");
+        i += 1;
+    }
+    cover!(c1[3] == u64::MAX && c1[0] == u64::MAX, "large c1");
+}
+
 macro_rules! std_stubs { () => {} }
 
 harnesses! { registry;
@@ -533,6 +573,10 @@ harnesses! { registry;
 
     #[kani::unwind(6)]
     fn k_setbit_u256() { setbit_u256() }
+    #[kani::unwind(66)]
+    #[kani::stub(core::arch::x86_64::_addcarry_u64, addcarry_stub)]
+    #[kani::stub(core::arch::x86_64::_subborrow_u64, subborrow_stub)]
+    fn k_u512_new_q() { u512_new_q() }
     #[kani::unwind(34)]
     #[kani::stub(core::arch::x86_64::_addcarry_u64, addcarry_stub)]
     #[kani::stub(core::arch::x86_64::_subborrow_u64, subborrow_stub)]
